@@ -36,7 +36,11 @@ ISA = {
         'two': {'operand_values': {
             'short': {'type': 'numeric', 'bytecode': {'value': 1, 'size': 4}, 'argument': {'size': 8, 'byte_align': True}},
             'wide': {'type': 'numeric', 'bytecode': {'value': 2, 'size': 4}, 'argument': {'size': 16, 'byte_align': True}},
-            'rb': {'type': 'register', 'register': 'b', 'bytecode': {'value': 3, 'size': 4}}}},
+            'rb': {'type': 'register', 'register': 'b', 'bytecode': {'value': 3, 'size': 4}},
+            # ... and two index operands of one kind behind one register
+            'xa': {'type': 'indexed_register', 'register': 'x', 'bytecode': {'value': 4, 'size': 4},
+                   'index_operands': {'s8': {'type': 'numeric', 'argument': {'size': 8, 'byte_align': True}},
+                                      'w16': {'type': 'numeric', 'argument': {'size': 16, 'byte_align': True}}}}}},
     },
     'instructions': {
         'nop': {'bytecode': {'value': 0xEA, 'size': 8}},
@@ -74,7 +78,7 @@ PROGRAMS = [
                                                             'd3/u1.asm': 'u1l: ld a, 1\n'}, ('d1', 'd2', 'd3')),
     ('layout-time expressions across zones', {'main.asm': '.memzone zz\nza: .byte 1, 2, 3\nza_end:\n.memzone zy\nzb: .fill za_end - za, $EE\n'
                                                           '.memzone GLOBAL\n nop\n.org 8 "zz"\n .byte 9\n.memzone zy\n.zerountil zb + 5\n'}, ()),
-    ('alternatives of one kind', {'main.asm': 'p0: pick 5\n pick KC\n pick b\n pick p0 + 1\n nop\n'}, ()),
+    ('alternatives of one kind', {'main.asm': 'p0: pick 5\n pick KC\n pick b\n pick p0 + 1\n pick x + 5\n pick x+KD\n nop\n'}, ()),
     ('several -D', {'main.asm': ' .byte LA, LB, LC\n#if LC >= 1\n nop\n#endif\n'}, ()),
     ('one name in several -D', {'main.asm': ' .byte LV\n#if LV >= 2\n nop\n#endif\n'}, ()),
 ]
